@@ -938,6 +938,42 @@ def build_pattern_witnesses(k: Kit, rule: str) -> None:
               'IPv6 address or network', str(bad), fi.loc(fi.node))
 
 
+def key_alg_consistent(k: Kit, rule: str) -> None:
+    """A key blob whose parameters belong to another algorithm is damaged."""
+    rep = k.rep
+    fi = k.func('public_key.decode_ssh_public_key')
+    g = k.cfg(fi)
+    rets = [n for n in g.nodes if isinstance(n.ast, ast.Return) and
+            n.ast.value is not None and dotted(n.ast.value) == 'key']
+    rep.floor(rule, 'key returns in decode_ssh_public_key', len(rets), 1)
+
+    def same(x: Node) -> Optional[bool]:
+        a = x.ast
+        if x.kind == 'atom' and isinstance(a, ast.Compare) and \
+                len(a.ops) == 1 and {dotted(a.left),
+                                     dotted(a.comparators[0])} == \
+                {'key.algorithm', 'alg'}:
+            if isinstance(a.ops[0], ast.Eq):
+                return True
+            if isinstance(a.ops[0], ast.NotEq):
+                return False
+        return None
+    over = [n for n, v in k.stores_to(fi, 'key.algorithm')]
+    for r in rets:
+        w = g.guarded_by(r.id, same)
+        rep.check(w is None and not over, rule,
+                  key(fi, 'algorithm name matches the key parameters'),
+                  'the key is returned only if the algorithm its parameters '
+                  'imply equals the name in the blob',
+                  'the algorithm name of the blob is written over whatever '
+                  'the parameters imply: `ecdsa-sha2-nistp256 <blob with '
+                  'curve id nistp384 and a P-384 point>` is imported as a '
+                  'key (equal to the genuine nistp384 key) instead of being '
+                  'skipped as damaged; in authorized_keys it authorises '
+                  'that key, in known_hosts it is returned as the host key',
+                  k.loc(fi, r), g.describe_path(w) if w else None)
+
+
 def r5(k: Kit) -> None:
     """Bracket escaping of host patterns; every line for a key is tried."""
     rep = k.rep
@@ -1100,6 +1136,7 @@ def run(idx, rep, tier):
     r3_case(k)
     r4(k)
     r4_cert_kind(k)
+    key_alg_consistent(k, 'C17.R4')
     r5(k)
     rep.rule('C17.R6', 'SSHKnownHosts.match evaluated with a stubbed _match: '
              'the lookup without port is used only when the [host]:port '
